@@ -48,6 +48,15 @@ CHECKS['C15'] = dict(check='c15', engine='E5-environment-sim', category='explora
                      note='trusted base: the canonical dump (checks/c15_loader.py) covers what the statement lists; per-run system '
                           'values (instance path, FLOW_RUN_ID) are normalised; sampled packages and environments, not exhaustive')
 
+CHECKS['C08'] = dict(check='c08', engine='E3-history-vs-model', category='exploration', design='§3 C08',
+                     technique='deterministic simulation of operation histories (seeded mutator/query sequences) against a from-scratch reference model, with shrinking',
+                     text='seeded histories of the public mutators of FlowIRConcrete interleaved with queries; after every step '
+                          'get_component_configuration on the live caching object equals a FlowIRConcrete rebuilt from raw() for every '
+                          'platform and three flag combinations (or both fail with the same error class); tampered return values '
+                          'never reappear. The only nondeterminism is the order of reads and writes, which the seeded generator owns.',
+                     note='trusted base: FlowIRConcrete(raw()) as the meaning of "from scratch"; sequences only (no concurrent callers, '
+                          'which the property does not quantify over); sampled histories of up to 40 operations')
+
 NOT_APPLICABLE = {
     'C03': 'pure rewrite of a component list (FlowIR.apply_replicate): no schedule, clock, fault or history to simulate',
     'C04': 'pure fold of configuration layers plus substitution; no state between calls (state across calls is C08)',
@@ -61,7 +70,7 @@ NOT_APPLICABLE = {
     'C19': 'dump/load round trip on documents; pure',
     'C20': 'arithmetic on a list of stage weights at load time',
 }
-PENDING = {k: 'claimed in DESIGN.md; its check is still under construction in this round' for k in ('C05', 'C07', 'C08', 'C14')}
+PENDING = {k: 'claimed in DESIGN.md; its check is still under construction in this round' for k in ('C05', 'C07', 'C14')}
 
 
 def main():
